@@ -301,7 +301,16 @@ impl<const K: usize> AffTree<K> {
         }
 
         for (label, node) in to_remove {
-            let _ = self.tree.try_remove_child(node, label);
+            // never remove the last remaining child: a decision without children
+            // would otherwise turn into a terminal that holds a predicate
+            let n_children = self
+                .tree
+                .tree_node(node)
+                .map(|nd| nd.children_iter().count())
+                .unwrap_or(0);
+            if n_children > 1 {
+                let _ = self.tree.try_remove_child(node, label);
+            }
         }
 
         counter
